@@ -1,0 +1,20 @@
+//go:build verif
+
+package bluge
+
+import "github.com/blugelabs/bluge/index"
+
+// VerifIndexConfig returns the index configuration carried by this Config.
+func (config Config) VerifIndexConfig() index.Config { return config.indexConfig }
+
+// VerifWithIndexConfig returns a copy of this Config using the given index configuration.
+func (config Config) VerifWithIndexConfig(ic index.Config) Config {
+	config.indexConfig = ic
+	return config
+}
+
+// VerifSnapshot exposes the index snapshot behind a Reader.
+func (r *Reader) VerifSnapshot() *index.Snapshot { return r.reader }
+
+// VerifIndexWriter exposes the index writer behind a Writer.
+func (w *Writer) VerifIndexWriter() *index.Writer { return w.chill }
